@@ -107,12 +107,7 @@ func (k *Key) Order(o2 mast.Key) int {
 			return 0
 		}
 		if v2.Type == v1proto.Type_REAL {
-			if float64(v.Int) < v2.Real {
-				return order(flip, -1)
-			} else if float64(v.Int) > v2.Real {
-				return order(flip, 1)
-			}
-			return 0
+			return order(flip, compareIntReal(v.Int, v2.Real))
 		}
 		return order(flip, -1)
 	}
@@ -145,6 +140,37 @@ func (k *Key) Order(o2 mast.Key) int {
 	}
 	panic(fmt.Errorf("key comparison %T, %T in unexpected order",
 		k.Value(), k2.Value()))
+}
+
+// compareIntReal compares an INTEGER with a REAL exactly, the way SQLite does
+// (sqlite3IntFloatCompare): converting the integer to float64 first would make
+// integers beyond 2^53 equal to a neighbouring real.
+func compareIntReal(i int64, r float64) int {
+	if r < -9223372036854775808.0 {
+		return 1
+	}
+	if r >= 9223372036854775808.0 {
+		return -1
+	}
+	if r != r { // NaN never reaches a key (SQLite turns it into NULL); sort it first
+		return 1
+	}
+	y := int64(r) // truncates toward zero; in range
+	if i < y {
+		return -1
+	}
+	if i > y {
+		return 1
+	}
+	// same integer part: decide by the fraction
+	s := float64(i)
+	if s < r {
+		return -1
+	}
+	if s > r {
+		return 1
+	}
+	return 0
 }
 
 func orderType(v, v2 *v1proto.SQLiteValue) (*v1proto.SQLiteValue, *v1proto.SQLiteValue, bool) {
